@@ -22,7 +22,7 @@ ALL_REPAIRS = ("second_kwargs", "list_kwargs", "dirichlet_eps")
 # Which of the repairs suggested by this check are present in the tree under test: the code-shaped model Code() follows it.
 # () models the pinned code.  After committing the corresponding fix to /repo add its name here, otherwise the check still
 # passes but reports MODEL-DRIFT (the model then predicts failures the repaired code no longer has).
-REPAIRS_IN_TREE = ()
+REPAIRS_IN_TREE = ("second_kwargs", "list_kwargs", "dirichlet_eps")  # the three fix: commits are in /repo
 if os.environ.get("VERIF_C12_REPAIRS"):          # development override, e.g. VERIF_C12_REPAIRS=second_kwargs,list_kwargs
     REPAIRS_IN_TREE = tuple(x for x in os.environ["VERIF_C12_REPAIRS"].split(",") if x in ALL_REPAIRS)
 
@@ -750,9 +750,9 @@ def lattice(thorough):
     """(name, T, K, likelihood batch shapes, input batch shapes, event sizes N replayed, seeds)"""
     if not thorough:
         return [dict(name="t2", T=2, K=3, likb=[(), (2,)], inb=[(), (2,), (3, 2)], sizes=[3], seeds=1)]
-    return [dict(name="t2", T=2, K=3, likb=[(), (2,)], inb=[(), (2,), (3, 2)], sizes=[3, 2, 5], seeds=2),
-            dict(name="t3", T=3, K=4, likb=[(), (2,), (1,)], inb=[(), (2,), (3, 1), (1,), (2, 2)], sizes=[2, 4], seeds=1),
-            dict(name="t1", T=1, K=2, likb=[(), (3,)], inb=[(), (3,), (2, 3)], sizes=[1, 3], seeds=1)]
+    return [dict(name="t2", T=2, K=3, likb=[(), (2,)], inb=[(), (2,), (3, 2)], sizes=[3, 2, 5], seeds=3),
+            dict(name="t3", T=3, K=4, likb=[(), (2,), (1,), (2, 1)], inb=[(), (2,), (3, 1), (1,), (2, 2)], sizes=[2, 4], seeds=2),
+            dict(name="t1", T=1, K=2, likb=[(), (3,)], inb=[(), (3,), (2, 3)], sizes=[1, 3], seeds=2)]
 
 
 def run(ck):
@@ -866,7 +866,23 @@ def run(ck):
     for k in sorted(groups):
         ck.model_drift("%s (%d cell(s) of %s)" % (groups[k][1], groups[k][0], k))
     ck.extra["model_vs_code"] = dict(cells_where_Code_differs_from_real_code=sum(g[0] for g in groups.values()), groups=len(groups))
-    ck.absorb(results)
+    # one representative of every failing cell signature first (the harness keeps replay files for the first 50 failures)
+    seen, first, rest = set(), [], []
+    for r in results:
+        if not r.get("ok", True) and r.get("sig") not in seen:
+            seen.add(r.get("sig"))
+            first.append(r)
+        else:
+            rest.append(r)
+    # evidence samples: one passing cell per class
+    sampled = set()
+    for r in first + rest:
+        cls = (r.get("key") or {}).get("cfg", {}).get("cls")
+        if r.get("ok", True) and cls not in sampled and r.get("sample") and (r["key"]["cfg"].get("op") != "call" or cls in ("List", "Het")):
+            sampled.add(cls)
+        else:
+            r["sample"] = None
+    ck.absorb(first + rest)
     ck.extra["domain_probe"] = domain_probe()
 
 
